@@ -658,6 +658,23 @@ pub fn generate(ctx: &mut Ctx) {
     }
 
     gen_cli_big_shift(ctx);
+    // a large prime whose square divides the discriminant of the starting order (index q, q^3): the
+    // Round 2 step then works modulo a prime of 22 bits and its square
+    {
+        let q = BigInt::from(3000017u64);
+        // x^2 + x + (1 + 3 q^2)/4: Q(sqrt(-3)), discriminant -3, index q
+        let c0 = (BigInt::one() + BigInt::from(3) * &q * &q) / BigInt::from(4);
+        let f2 = vec![c0, BigInt::one(), BigInt::one()];
+        do_disc(ctx, &f2, &BigInt::from(-3));
+        do_basis(ctx, &f2);
+        // (x - 1000)^3 - q^2 (x - 1000) - q^3: the field of x^3 - x - 1 (discriminant -23), index q^3
+        let base = vec![-(&q * &q * &q), -(&q * &q), BigInt::zero(), BigInt::one()];
+        let f3 = shift(&base, 1000);
+        do_disc(ctx, &f3, &BigInt::from(-23));
+        if ctx.thorough {
+            do_basis(ctx, &f3);
+        }
+    }
     // 9. changes of generator on the pool: θ+k, −θ, cθ (c ≤ 6: large prime-power indices), 1/θ
     let per = ctx.pick(3, 6);
     let pool2 = pool.clone();
